@@ -1,6 +1,7 @@
 package utils
 
 import (
+	"bytes"
 	"fmt"
 	"io"
 )
@@ -136,17 +137,37 @@ func ReadUint32(rd io.Reader) (uint32, error) {
 	return val, nil
 }
 
-// ReadNBytes reads n bytes from the reader
-func ReadNBytes(n int, rd io.Reader) ([]byte, error) {
-	var b []byte = make([]byte, n)
-	num, err := rd.Read(b)
+// maxPrealloc is the largest buffer that ReadNBytes allocates before any data has arrived.
+const maxPrealloc = 4096
 
-	// if num is correct, we are not interested in io.EOF errors
-	if num == n {
-		err = nil
+// ReadNBytes reads exactly n bytes from the reader.
+// If the reader delivers less than n bytes, an error is returned (io.EOF, if there was no data at all
+// and io.ErrUnexpectedEOF, if there was not enough data).
+func ReadNBytes(n int, rd io.Reader) ([]byte, error) {
+	if n < 0 {
+		return nil, fmt.Errorf("invalid length: %v", n)
 	}
 
-	return b, err
+	if n <= maxPrealloc {
+		var b []byte = make([]byte, n)
+		// if the number of bytes is correct, we are not interested in io.EOF errors
+		_, err := io.ReadFull(rd, b)
+		if err != nil {
+			return nil, err
+		}
+		return b, nil
+	}
+
+	// don't trust large length declarations: let the buffer grow with the data that is really there
+	var bf bytes.Buffer
+	num, err := io.CopyN(&bf, rd, int64(n))
+	if err == io.EOF && num > 0 {
+		err = io.ErrUnexpectedEOF
+	}
+	if err != nil {
+		return nil, err
+	}
+	return bf.Bytes(), nil
 }
 
 // ErrUnexpectedEOF is returned, when an unexspected end of file is reached.
